@@ -150,3 +150,14 @@ prop("C12",
      level_note="PARTIAL: proof about the model's reaping handshake + exploration for the runtime counts. Trusted: Lean kernel, process-forest model, extractor",
      technique="Lean 4 proof by induction over process forests + extracted-code path facts + soak exploration",
      timeout={"quick": 1500, "thorough": 7200})
+
+prop("C14",
+     trusted_base=["hand model Model/Batch.lean: container side handleOpen/checkOpenTargetFile (tied to the regenerated functions by C14_tie_handleOpen, kernel-evaluated on batches containing every object kind) and host side Open's pairing loop (hand model; the Go function uses a deferred closure) tied by the scripted-peer differential",
+                   "file-system outcomes (what lstat finds, whether OpenFile succeeds) are parameters of the model"],
+     assumptions=["intermediate-component symlinks are followed (outside the statement); TOCTOU between lstat and open is outside the model",
+                  "batches with more than 253 successes exceed SCM_MAX_FD (open known finding under C10/C14: request fits)",
+                  "a dishonest container attaching descriptors to an *error* reply leaks them in the host (observation; the container init is trusted code)"],
+     not_covered="kernel open semantics",
+     level_text="Theorems for every batch and every success/failure pattern: results are index-aligned (item k is a file iff item k succeeded, for item k's path), a descriptor is produced only where lstat found nothing or a regular file, an honest reply is always accepted, and for ANY reply an inconsistency closes every received descriptor; tie to regenerated handleOpen; real batches with planted symlinks/FIFOs/sockets/directories checked by inode identity and access mode through /proc/<init>/root; scripted dishonest peer",
+     level_note="Trusted: Lean kernel; hand model tied by kernel-evaluated samples of regenerated code + differential; file-system outcomes parametric",
+     technique="Lean 4 proof by induction over batches + decide +kernel tie to regenerated Go-lite + differential with planted objects and a scripted peer")
